@@ -117,7 +117,9 @@ Record config := mkConfig {
   c_batch_size : Z;          (* execution option insertmanyvalues_page_size / dialect default *)
   c_max_params : Z;          (* dialect.insertmanyvalues_max_parameters (None = 0) *)
   c_total_params : Z;        (* len(self.bind_names) *)
-  c_params_per_batch : Z;    (* len(imv.insert_crud_params) *)
+  c_params_per_batch : Z;    (* len(imv.insert_crud_params) : the VALUES elements *)
+  c_values_binds : Z;        (* sum(len(elem[3]) for elem in imv.insert_crud_params) : the bound
+                                parameters inside VALUES *)
   c_is_returning : bool;     (* bool(compiled.effective_returning) *)
   c_imv_sbo : bool;          (* imv.sort_by_parameter_order *)
   c_num_sentinel : Z;        (* imv.num_sentinel_columns *)
@@ -125,6 +127,10 @@ Record config := mkConfig {
   c_has_keys : bool;         (* bool(imv.sentinel_param_keys) *)
   c_named : bool             (* not self.positional *)
 }.
+
+(* num_params_per_batch = max(len(imv.insert_crud_params), sum(len(elem[3]) for elem in ...)) *)
+Definition params_per_batch_expr (num_elements num_values_binds : Z) : Z := Z.max num_elements num_values_binds.
+Definition c_per_batch (c : config) : Z := params_per_batch_expr (c_params_per_batch c) (c_values_binds c).
 
 (* sort_by_parameter_order as passed down by the dialect-level function *)
 Definition c_sbo (c : config) : bool := if c_is_returning c then c_imv_sbo c else false.
@@ -151,7 +157,7 @@ Definition plan (c : config) (ps : list P) : result (list (batch P)) :=
   match decide_mode (c_sbo c) (c_flags c) with
   | (true, downgraded) => Ok (row_batches 1 lenparams (c_sbo c) downgraded ps)
   | (false, _) =>
-    bind (clamp (c_batch_size c) (c_max_params c) (c_total_params c) (c_params_per_batch c)) (fun bs =>
+    bind (clamp (c_batch_size c) (c_max_params c) (c_total_params c) (c_per_batch c)) (fun bs =>
     bind (total_batches lenparams bs) (fun total =>
     bind (split_loop (length ps) bs ps) (fun chunks =>
     Ok (number_batches 1 total (c_sbo c) chunks))))
